@@ -49,7 +49,7 @@ class Misc:
 
 
 def enc_fa(cls: str, kw) -> str:
-    """DFA / NFA in the Driver/Proto.lean format (from kwargs)."""
+    """DFA / NFA: the two reserved-name numbers, then the Driver/Proto.lean format (from kwargs)."""
     st = state_names(kw)
     sy = sym_names(kw["input_symbols"])
     order = [sy(a) for a in kw["input_symbols"]]
@@ -62,7 +62,9 @@ def enc_fa(cls: str, kw) -> str:
     head = [len(st.order), len(order), order]
     if cls == "DFA":
         head.append(bool(kw["allow_partial"]))
-    return toks(head, st(kw["initial_state"]), len(kw["final_states"]), [st(q) for q in kw["final_states"]],
+    # interpretation of the numbers: which state is Python's None, which symbol is ""
+    # (numbers ≥ FOREIGN when the definition has no such state / symbol)
+    return toks(st(None), sy(""), head, st(kw["initial_state"]), len(kw["final_states"]), [st(q) for q in kw["final_states"]],
                 len(rows), rows)
 
 
@@ -123,7 +125,8 @@ def enc_pda(cls: str, kw) -> str:
                     sub.append(toks(gs(g), len(res), [[st(t), enc_push(gs, p)] for (t, p) in res]))
             ents.append(toks(esym(sy, a), len(m), sub))
         rows.append(toks(st(k), len(row), ents))
-    return toks(len(st.order), len(order), order, len(gorder), gorder, st(kw["initial_state"]),
+    # first number: which stack symbol is "" (≥ FOREIGN when "" is not a stack symbol)
+    return toks(gs(""), len(st.order), len(order), order, len(gorder), gorder, st(kw["initial_state"]),
                 gs(kw["initial_stack_symbol"]), len(kw["final_states"]), [st(q) for q in kw["final_states"]],
                 misc.code(MODE_CODE, kw["acceptance_mode"]), len(rows), rows)
 
@@ -175,10 +178,10 @@ class StrTable:
         self.t: Dict[str, str] = {}
 
     def tok(self, s: str) -> str:
-        """Plain alphabetic words travel as they are (so that the model's own literals such
-        as the default "both" compare equal); anything else gets an id `x<n>` (ids contain a
-        digit, words do not)."""
-        if s.isascii() and s.isalpha():
+        """Plain words of ASCII letters and underscores travel as they are (so that the model's
+        own literals — the regenerated defaults such as "both", "final_state" — compare equal);
+        anything else gets an id `x<n>` (ids contain a digit, words do not)."""
+        if s.isascii() and s.replace("_", "").isalpha():
             return s
         if s not in self.t:
             self.t[s] = f"x{len(self.t)}"
